@@ -128,3 +128,81 @@ Print Assumptions C05_returns.
 Print Assumptions C05_resp_pairs.
 Print Assumptions C05_legacy_refuted.
 Print Assumptions C05_tie_sound.
+
+(* ------------------------------------------------------------------ composed liveness (run-existence) *)
+From V Require Import Proofs.ConnC15 Proofs.ConnLive.
+
+(* "Every Submit call returns, without error, the PDU whose sequence number
+   equals that of its own request", as the existence of a run of the model.
+   From ANY state reachable under the hypotheses of the property, for ANY call c
+   of Submit in progress — wherever it is: about to register its waiter, about to
+   hand its frame to the transport, inside the transport Write, in its select,
+   on its way out — provided that
+     Done() is open and c's own context is not done   (else it returns an error: C15),
+     c's frame is one Marshal produced and the transport is not closed,
+     the peer has sent c's response,
+     that response is with c already ([got]: in its channel or taken), or it is
+       readable and none of the frames readable BEFORE it makes Watch give up
+       ([clear_to]: no [IFatal] — bad length, unknown id, truncated frame — in front of
+       it; however many unsolicited PDUs, responses to other calls and undecodable
+       frames with a registered id precede it, and whatever follows it),
+   there is a finite run made ONLY of c's own steps ([sub_event]: Register,
+   WireWrite, WriteReturn — the transport letting the Write return —, WakeResp,
+   Unregister, and CloseFinish when c is the Submit inside Close), of the steps of
+   Watch, and of an application that receives what Watch offers it ([watch_event]:
+   WatchLoop, WatchStep, AppRecv), after which c has returned [ROk m] with the
+   sequence number of its own request.  No other caller, no event of the peer,
+   no timer is needed.  (That the Go scheduler runs these enabled steps is
+   outside the model.)  [~ In IFatal (inbound s)] implies the last hypothesis
+   (C05_no_fatal_clear). *)
+Theorem C05_live : forall s c,
+  ereach s -> sub s c -> done s = false -> c_ctx (callers s c) = false ->
+  is_ok (c_frame (callers s c)) = true -> transport_closed s = false ->
+  answered s (c_seq (callers s c)) ->
+  (got s c = true \/ clear_to (c_seq (callers s c)) (inbound s)) ->
+  exists t s' m, run fixed s t = Some s' /\ Forall (live_event c) t /\
+                 c_pc (callers s' c) = PReturned (ROk m) /\ snd m = c_seq (callers s c).
+Proof. exact submit_live. Qed.
+Theorem C05_no_fatal_clear : forall q l, ~ In IFatal l -> clear_to q l.
+Proof. exact no_fatal_clear. Qed.
+
+(* The same from a state where the peer has NOT answered yet and the inbound
+   stream has not ended: c's own steps take its request to the transport (t1),
+   the peer sends the response — exactly one event of the peer, any PDU p that
+   carries c's sequence number; it lies within the hypotheses of the property —,
+   then steps of c, Watch and the application (t2) lead c to its return. *)
+Theorem C05_live_unanswered : forall s c p,
+  ereach s -> sub s c -> done s = false -> c_ctx (callers s c) = false ->
+  is_ok (c_frame (callers s c)) = true -> transport_closed s = false ->
+  ~ answered s (c_seq (callers s c)) -> in_end s = false -> ~ In IFatal (inbound s) ->
+  snd p = c_seq (callers s c) ->
+  exists t1 t2 s' m, run fixed s (t1 ++ PeerFrame (IPdu p) :: t2) = Some s' /\
+                 Forall (sub_event c) t1 /\ Forall (live_event c) t2 /\
+                 c_pc (callers s' c) = PReturned (ROk m) /\ snd m = c_seq (callers s c).
+Proof. exact submit_live_unanswered. Qed.
+
+(* Non-vacuity.  C05_live: a reachable state within the hypotheses where call 1
+   is inside the transport Write and its response is readable behind an
+   unsolicited PDU and an undecodable frame, and a frame at which Watch will give
+   up FOLLOWS it.  C05_live_unanswered: call 0 has registered, not yet sent, and
+   is unanswered, three frames being readable. *)
+Example C05_live_example :
+  exists s, ereach s /\ sub s 1%nat /\ done s = false /\ c_ctx (callers s 1%nat) = false /\
+            is_ok (c_frame (callers s 1%nat)) = true /\ transport_closed s = false /\
+            answered s (c_seq (callers s 1%nat)) /\
+            (got s 1%nat = true \/ clear_to (c_seq (callers s 1%nat)) (inbound s)) /\
+            c_pc (callers s 1%nat) = PWriting /\ wpc s = WReading /\
+            inbound s = [IPdu (5, 99%Z); IBad 3%Z; IPdu (2147483652, 8%Z); IFatal].
+Proof. exact submit_live_example. Qed.
+Example C05_live_unanswered_example :
+  exists s, ereach s /\ sub s 0%nat /\ done s = false /\ c_ctx (callers s 0%nat) = false /\
+            is_ok (c_frame (callers s 0%nat)) = true /\ transport_closed s = false /\
+            ~ answered s (c_seq (callers s 0%nat)) /\ in_end s = false /\ ~ In IFatal (inbound s) /\
+            c_pc (callers s 0%nat) = PRegistered /\
+            inbound s = [IPdu (5, 99%Z); IBad 3%Z; IPdu (2147483652, 8%Z)].
+Proof. exact submit_live_unanswered_example. Qed.
+
+Print Assumptions C05_live.
+Print Assumptions C05_live_unanswered.
+Print Assumptions C05_live_example.
+Print Assumptions C05_live_unanswered_example.
